@@ -281,6 +281,7 @@ type Engine struct {
 	fset *token.FileSet
 	pkgs map[string]*ssa.Package
 	uncomparable map[int]bool
+	globalFuncInit map[string]*ssa.Function
 }
 
 func (e *Engine) tag(ty types.Type) int {
@@ -553,6 +554,8 @@ func (t *tr) oblige(kind, name, guard, goal string, pos token.Pos) *Obligation {
 		full = fmt.Sprintf("%s~%d", full, n)
 	}
 	o := &Obligation{Name: full, Kind: kind, Guard: guard, Goal: goal, Pos: pos, Where: t.posStr(pos)}
+	// the obligation is checked at this point of the script: only facts established before it are in scope
+	fmt.Fprintf(&t.out, ";;OBL %d\n", len(t.obls))
 	t.obls = append(t.obls, o)
 	return o
 }
@@ -1064,7 +1067,33 @@ func (fs *FuncSpec) modifiesPointers(t *tr) bool {
 	return false
 }
 
+// globalFuncCallee: a call through a package-level func variable that is only assigned in init.
+func (t *tr) globalFuncCallee(cc *ssa.CallCommon) (string, *ssa.Function) {
+	if cc.IsInvoke() {
+		return "", nil
+	}
+	u, ok := cc.Value.(*ssa.UnOp)
+	if !ok {
+		return "", nil
+	}
+	g, ok := u.X.(*ssa.Global)
+	if !ok {
+		return "", nil
+	}
+	key := g.Pkg.Pkg.Path() + "." + g.Name()
+	if t.eng.globalsWritten[key] {
+		return "", nil
+	}
+	if f := t.eng.globalFuncInit[key]; f != nil {
+		return key, f
+	}
+	return "", nil
+}
+
 func (t *tr) contractFor(cc *ssa.CallCommon) *FuncSpec {
+	if key, _ := t.globalFuncCallee(cc); key != "" {
+		return t.eng.specs.Funcs[key]
+	}
 	if cc.IsInvoke() {
 		return t.eng.specs.Funcs["invoke:"+types.TypeString(cc.Value.Type(), nil)+"."+cc.Method.Name()]
 	}
